@@ -84,10 +84,13 @@ func newIxWorld() *ixWorld {
 func (w *ixWorld) Close() { w.ix.Close() }
 
 // genIxPool builds permanodes, attribute claims on them and delete claims of permanodes.
-func genIxPool(r *hk.Rand, tag string) []poolBlob {
+func genIxPool(r *hk.Rand, tag string, dels bool) []poolBlob {
 	nPN := 2 + r.Intn(3)
 	nCl := 4 + r.Intn(8)
 	nDel := r.Intn(4)
+	if dels {
+		nPN, nDel = 4, 6
+	}
 	var pool []poolBlob
 	t0 := time.Unix(1300000000, 0)
 	for i := 0; i < nPN; i++ {
@@ -113,11 +116,16 @@ func genIxPool(r *hk.Rand, tag string) []poolBlob {
 
 func isDeleteClaim(b poolBlob) bool { return strings.Contains(string(b.Val), `"claimType": "delete"`) }
 
-func genIxProgram(r *hk.Rand, tag string, thorough bool) program {
-	p := program{Kind: "index", Pool: genIxPool(r, tag), YLevel: int32(1 + r.Intn(2))}
+// dels: the program aimed at populateDeleteClaim (many delete claims received while other blobs are
+// being indexed).
+func genIxProgram(r *hk.Rand, tag string, thorough, dels bool) program {
+	p := program{Kind: "index", Pool: genIxPool(r, tag, dels), YLevel: int32(1 + r.Intn(2))}
 	nClients := 2 + r.Intn(7)
 	if r.Chance(25) {
 		nClients = 9 + r.Intn(8)
+	}
+	if dels {
+		nClients = 8
 	}
 	opsPer := 4 + r.Intn(6)
 	if thorough {
@@ -136,8 +144,11 @@ func genIxProgram(r *hk.Rand, tag string, thorough bool) program {
 		var ops []opIn
 		for len(ops) < opsPer {
 			k := r.Intn(len(p.Pool))
+			if dels && r.Chance(50) {
+				k = len(p.Pool) - 1 - r.Intn(6) // a delete claim
+			}
 			switch x := r.Intn(100); {
-			case x < 50:
+			case x < 50 || (dels && x < 75):
 				if isDeleteClaim(p.Pool[k]) {
 					// the deleter's target is indexed first by the same client: a delete claim whose
 					// target is missing is parked by the indexer (acknowledged, indexed later)
@@ -242,7 +253,7 @@ func runIxProgram(p program, race bool) (*history, error) {
 	h := &history{Kind: "index", Cfg: "index.New(memory kv, yielding)+corpus, search.Handler", Pool: p.Pool, Clients: len(p.Clients), Race: race}
 	y0 := yCount.Load()
 	yLevel.Store(p.YLevel)
-	h.Recs, h.Hung = runClients(p.Clients, func(in opIn) string { return w.exec(p.Pool, in) }, 20*time.Second)
+	h.Recs, h.Hung = runClients(p.Clients, func(in opIn) string { return w.exec(p.Pool, in) }, hangAfter)
 	yLevel.Store(0)
 	h.Yields = yCount.Load() - y0
 	if h.Hung {
